@@ -1,6 +1,6 @@
 """C15 CPU kinds."""
 from prog import *
-import effects, flags, exh, guards, must, threads, tailzero
+import effects, flags, exh, guards, must, threads, tailzero, rerank
 
 
 def run(chk, tier):
@@ -21,12 +21,35 @@ def run(chk, tier):
     guards.dominated(chk, P, "hwloc_cpukinds_register", "cpukinds.c", dups,
                      lambda st: any(f[0] == "F" and f[1] == "hwloc_bitmap_iszero(_cpuset)" for f in st) and any(f[0] == "T" and f[1] == "_cpuset" for f in st),
                      "R-GUARD", "the cpuset is duplicated only after it was tested non-NULL and non-empty")
-    def adds(f):
-        for c in f.calls("hwloc__add_info"):
-            yield c, "add"
-    guards.dominated(chk, P, "hwloc__cpukind_add_infos", "cpukinds.c", adds,
-                     lambda st: any(f[0] == "F" and f[1].startswith("hwloc__cpukind_check_duplicate_info(") for f in st),
-                     "R-GUARD", "an info pair is added only after hwloc__cpukind_check_duplicate_info() found no exact duplicate")
+    # every function of cpukinds.c that adds an info pair does so only after a duplicate test of THAT pair failed: the test is a call of
+    # a function of the unit handed the same name and value (whatever it is called); a function that adds pairs after comparing
+    # strings itself is an idiom this rule does not know (analysis broken, not a violation)
+    nadd = 0
+    for af in P.unit("cpukinds.c").funcs(only_main=True):
+        if af.entry is None or not list(af.calls("hwloc__add_info")):
+            continue
+        m = must.Must(af).run()
+        for c in af.calls("hwloc__add_info"):
+            st = m.before.get(c["id"])
+            if st is None:
+                continue
+            nadd += 1
+            nv = [src(strip(x)) for x in args(c)[1:3]]
+            def tested(st):
+                for fct in st:
+                    if fct[0] != "F" or "(" not in fct[1]:
+                        continue
+                    g = P.func(fct[1].split("(")[0].strip())
+                    if g is not None and g.unit is af.unit and all(x in fct[1] for x in nv):
+                        return True
+                return False
+            ok = tested(st)
+            if not ok and list(af.calls("strcmp")):
+                chk.broke("R-GUARD: %s adds an info pair after comparing strings itself: duplicate filtering idiom not recognised" % af.name)
+                continue
+            chk.inst("R-GUARD", af, "dedup-before-add#%d" % nadd, ok, "the info pair (%s) is added to a kind only after a duplicate test of that pair failed%s"
+                     % (", ".join(nv), "" if ok else " (facts: %s)" % must.facts_text(st)[:6]), loc=af.loc(c))
+    chk.floor("R-GUARD", "info additions in cpukinds.c", nadd, 1)
     chk.rule("R-OBLIG", "after a public register and after a restrict the kinds are re-ranked / restricted: calls present under their own NO_CPUKINDS test only")
     f = P.need_func("hwloc_cpukinds_register", "cpukinds.c")
     chk.inst("R-OBLIG", f, "rank-after-register", any(True for c in f.calls("hwloc_internal_cpukinds_rank")), "hwloc_cpukinds_register re-ranks the kinds")
@@ -46,6 +69,10 @@ def run(chk, tier):
     chk.inst("R-OBLIG", r, "restrict-kinds", ok, "hwloc_topology_restrict calls hwloc_internal_cpukinds_restrict exactly when NO_CPUKINDS is unset, whatever the restrict flags (%s)" % why)
     rk = P.need_func("hwloc_internal_cpukinds_restrict", "cpukinds.c")
     chk.inst("R-OBLIG", rk, "rank-after-removal", any(True for c in rk.calls("hwloc_internal_cpukinds_rank")), "removing a kind is followed by a re-ranking")
+    chk.rule("R-RERANK", "after restrict removed a kind, every exit reached with 1 or 2 kinds left has re-ranked them since (hwloc_internal_cpukinds_rank is a no-op only for 0 kinds; "
+             "the guard in front of the call is evaluated under each remaining count, not matched)")
+    nrr = rerank.run(chk, P, "hwloc_internal_cpukinds_restrict", "cpukinds.c", "topology->nr_cpukinds", "hwloc_internal_cpukinds_rank", needs=(1, 2), domain=(0, 1, 2))
+    chk.floor("R-RERANK", "exit states judged", nrr, 2)
     chk.rule("R-TAILZERO", "zero-tail discipline of the kinds array: the grower zero-fills new slots and registration appends infos into the slot at the count in place, "
              "so every function that lowers nr_cpukinds while keeping the array zeroes the vacated slot on every path (may-dataflow from the decrement to the exit)")
     nz = tailzero.run(chk, P, only_arrays=("cpukinds",), min_arrays=1)
